@@ -19,6 +19,7 @@ package override
 import (
 	"fmt"
 	"path"
+	"path/filepath"
 	"strconv"
 	"strings"
 
@@ -229,14 +230,14 @@ func portIndexer(y any, p tree.Path) (string, error) {
 func envFileIndexer(y any, p tree.Path) (string, error) {
 	switch value := y.(type) {
 	case string:
-		return value, nil
+		return filepath.Clean(value), nil
 	case map[string]any:
 		if pathValue, ok := value["path"]; ok {
 			path, isString := pathValue.(string)
 			if !isString {
 				return "", fmt.Errorf("%s: path must be a string, got %T", p, pathValue)
 			}
-			return path, nil
+			return filepath.Clean(path), nil
 		}
 		return "", fmt.Errorf("environment path attribute %s is missing", p)
 	}
